@@ -7,8 +7,21 @@ pub async fn clean_target_output_paths(target: &Target) -> Result<()> {
     if let Some(output) = target.output() {
         for resource in &output.files {
             if resource.extensions.is_some() {
+                // A declared path that is itself a symbolic link is not followed: what lies
+                // behind it is not beneath the declared path (without extensions, only the link
+                // itself is removed).
+                let mut paths = Vec::with_capacity(resource.paths.len());
+                for path in &resource.paths {
+                    let is_link = fs::symlink_metadata(path)
+                        .await
+                        .map(|metadata| metadata.file_type().is_symlink())
+                        .unwrap_or(false);
+                    if !is_link {
+                        paths.push(path.clone());
+                    }
+                }
                 let resource_files =
-                    crate::fs::list_files_in_paths(&resource.paths, &resource.extensions).await;
+                    crate::fs::list_files_in_paths(&paths, &resource.extensions).await;
                 for file in resource_files {
                     fs::remove_file(&file)
                         .await
